@@ -34,11 +34,11 @@ TEXT = {
             "reader positioned at the cursor reads back exactly the written entries and stops where the writer stopped; decode_encode for "
             "API-level entries. C07_recover_roundtrip: the same through recover on the multi-file image of any reachable state (entries spanning blocks and files, after roll-overs and GC passes): the reader delivers, with no corruption event, exactly the journal entries located in tracked files, and the writer resumes at the end of the tape (or at the next block start when fewer than 7 bytes remain). Tied to the code by byte-exact comparison of the real writer/reader (hook H4) with the model.",
             "Lean 4 proof by induction on the writer's loop / block list + differential correspondence"),
-    "C08": ("Lean theorems: C08_recover_genuine (for the image of ANY state reachable by calls and restarts, and ANY in-place damage of it - same files, same lengths, arbitrary bytes - if open succeeds, every recovered record is (queue, position, payload) of an append call of the history and the queues are the replay of a sub-sequence of the journal entries in tracked files; hypothesis NoAccidentalFrameImg = no CRC-32 collision: wherever the reader's acceptance test passes, the clean tape has that very frame there); C08_crash_genuine_partial / C08_crash_restart_partial (the same over states reachable WITH crashes at any point - tapes with junk slots, orphan First/Middle runs, a residue, an empty next file - against a journal J satisfying the relaxed disk invariant CInvX; partial: that J's entries were all handed to the writer by calls of the history is proved across one restart only); C08_genuine_entries/records (single stream); recover_sorted (for EVERY image a successful recovery has strictly increasing positions and distinct names), recover_records_subset, assemble_whole_entry; negative_example (finding F5: moving whole valid blocks is NOT covered - a copied block splices entries). Tied to the code by the damage campaign (genuine-records oracle on the real library; open outcome, state and directory compared with the model on every damaged image).",
+    "C08": ("Lean theorems: C08_recover_genuine (for the image of ANY state reachable by calls and restarts, and ANY in-place damage of it - same files, same lengths, arbitrary bytes - if open succeeds, every recovered record is (queue, position, payload) of an append call of the history and the queues are the replay of a sub-sequence of the journal entries in tracked files; hypothesis NoAccidentalFrameImg = no CRC-32 collision: wherever the reader's acceptance test passes, the clean tape has that very frame there); C08_crash_genuine / C08_crash_restart (the same over states reachable WITH crashes at any point of any call or of open itself, GC passes cut in the middle, any number of times - tapes with junk slots, orphan First/Middle runs, a residue, an empty next file: every recovered record is a record of an append entry in W, the list of entries that the calls and GC passes of the history handed to the writer, accumulated constructor by constructor in ReachXW, which is equivalent to ReachX: toReachX/ofReachX); C08_genuine_entries/records (single stream); recover_sorted (for EVERY image a successful recovery has strictly increasing positions and distinct names), recover_records_subset, assemble_whole_entry; negative_example (finding F5: moving whole valid blocks is NOT covered - a copied block splices entries). Tied to the code by the damage campaign (genuine-records oracle on the real library; open outcome, state and directory compared with the model on every damaged image).",
             "Lean 4 proof over arbitrary damaged images of reachable states + damage enumeration, differential"),
     "C09": ("Lean theorems C09_one_frame (byte level: with one frame's checksum/payload bytes replaced, any role, the reader delivers exactly the other entries, in order), C09_drop_one (replay level: for every reachable journal - any history, roll-overs, GC - erasing ANY one entry never makes the replay fail and every record of the live queues not appended by the erased entry is recovered with the same position and payload) and C09_end_to_end (their composition for journals in the first file). C09_recover_one_frame(_all): the same through the whole of recover on the multi-file disk image of any state reachable without crashes (ReachD), for every policy and GC order, wherever the tape ends (the _all version removes the former restriction that at least 7 bytes remain in the last block). Hypothesis: FrameDetected (no CRC collision). Tied to the code by the aimed-damage campaign (retained-records-survive oracle) and raw reads through hook H4.",
             "Lean 4 proof (byte-level single-frame damage + drop-one simulation over reachable journals) + aimed damage enumeration, differential"),
-    "C10": ("Lean: recovery is a total function (no fuel); recover_no_panic / recover_no_panic_img: the panic-instrumented twin recoverP (checked u64 arithmetic of next_position, truncate_head, FileTracker::inc made explicit) never reports a panic for ANY image whose delivered entries carry no position 2^64-1 and whose file numbers leave room for the GC roll-overs, and the recovered queues are not poisoned (read accessors do not overflow); recover_buf_bounded (the reassembly buffer never exceeds the image size); ioCalls_bounded (no retry loop); witnesses truncate_max_panics / append_max_poisons / noMaxFiles_insufficient show the hypotheses are needed (finding F4). Partial: OS behaviour and the assert in RollingWriter::write are exercised by the damage/bytes/names campaigns under catch_unwind + watchdog, not proved.",
+    "C10": ("Lean: recovery is a total function (no fuel); recover_no_panic / recover_no_panic_img: the panic-instrumented twin recoverP (checked u64 arithmetic of next_position, truncate_head, FileTracker::inc made explicit) never reports a panic for ANY image whose delivered entries carry no position 2^64-1 and whose file numbers leave room for the GC roll-overs, and the recovered queues are not poisoned (read accessors do not overflow); recover_buf_bounded (the reassembly buffer never exceeds the image size); ioCalls_bounded (no retry loop); witnesses truncate_max_panics / append_max_poisons / noMaxFiles_insufficient show the hypotheses are needed (finding F4). recoverC_asserts: for EVERY directory content (arbitrary bytes, arbitrary file lengths) every write-path assert! that the GC pass of open reaches holds (RollingWriter::write's block bound, Header::for_payload, the frame slice, the 64 KiB name bound) and the writer resumes within the nominal file size - since fix F6 (1aa921b: the reader ignores what lies beyond the nominal size of a WAL file; before it open panicked on an extended file, oversize_assert_fires is the model witness, corpus/oversize__F6 the replay) open is recoverC = recover o clipImage, and clipImage is the identity on every image the log produces, crash images included (reach_noOversize, crash_noOversize, recoverC_reach). Not proved: OS behaviour (odd directory entries, allocation failure), wall-clock; exercised by the damage/bytes/names/oversize campaigns under catch_unwind + watchdog.",
             "Lean 4 proof (panic-instrumented twin of recovery) + damage / crafted-input enumeration, differential"),
     "C11": ("Lean theorems io_reported / io_irrelevant_beyond / never_partial / fault_never_ok_on_bad_image / ioCalls_bounded: for every "
             "image and every index n, a failing n-th list/open/read call yields Err(Io) iff recovery reaches it, a log returned under a "
